@@ -25,7 +25,16 @@ type solverProc struct {
 	// lastFromFallback is set when a "sat" answer came from a one-shot fallback solver, so no
 	// scope is open and no model can be read.
 	lastFromFallback bool
+	// wantNames/wantSorts: constants whose values a fallback run should report; fbModel: what it reported
+	wantNames []string
+	wantSorts []ssort
+	fbModel   assignment
 }
+
+// PrimaryQuickMs bounds the first, incremental attempt at a query; a query the incremental core does not
+// settle in that time is handed to the one-shot solvers (whose preprocessing often decides floating-point
+// queries in milliseconds that the incremental core bit-blasts for seconds), and only then retried nowhere.
+var PrimaryQuickMs = 2500
 
 // SolverTimeoutMs is the per-query budget of the primary solver.
 var SolverTimeoutMs = 20000
@@ -57,7 +66,11 @@ func startSolver(kind string) *solverProc {
 		p.raw("(set-logic ALL)")
 	} else {
 		p.raw("(set-option :produce-models true)")
-		p.raw(fmt.Sprintf("(set-option :timeout %d)", SolverTimeoutMs))
+		tmo := SolverTimeoutMs
+		if PrimaryQuickMs > 0 && PrimaryQuickMs < tmo {
+			tmo = PrimaryQuickMs
+		}
+		p.raw(fmt.Sprintf("(set-option :timeout %d)", tmo))
 	}
 	return p
 }
@@ -170,6 +183,18 @@ func (p *solverProc) checkSat(extra []string, keep bool) string {
 		p.raw("(pop 1)")
 	}
 	Stats.TimeS += time.Since(t0).Seconds()
+	if d := os.Getenv("VERIF_SMT_DUMP"); d != "" && time.Since(t0).Seconds() > 0.8 {
+		// development aid: keep the script of slow queries
+		var sb strings.Builder
+		for _, l := range p.log {
+			sb.WriteString(l + "\n")
+		}
+		for _, x := range extra {
+			sb.WriteString("(assert " + x + ")\n")
+		}
+		sb.WriteString("(check-sat)\n")
+		os.WriteFile(fmt.Sprintf("%s/q-%d-%d.smt2", d, os.Getpid(), Stats.Queries), []byte(sb.String()), 0o644)
+	}
 	if r == "unknown" {
 		r = p.fallback(extra)
 		if r == "sat" && keep {
@@ -197,31 +222,97 @@ func (p *solverProc) fallback(extra []string) string {
 		sb.WriteString("(assert " + x + ")\n")
 	}
 	sb.WriteString("(check-sat)\n")
+	p.fbModel = nil
+	wantModel := len(p.wantNames) > 0
+	if wantModel {
+		const chunk = 200
+		for i := 0; i < len(p.wantNames); i += chunk {
+			j := i + chunk
+			if j > len(p.wantNames) {
+				j = len(p.wantNames)
+			}
+			sb.WriteString("(get-value (" + strings.Join(p.wantNames[i:j], " ") + "))\n")
+		}
+	}
 	f, err := os.CreateTemp("", "verif-q-*.smt2")
 	if err != nil {
 		return "unknown"
 	}
 	defer os.Remove(f.Name())
-	f.WriteString(sb.String())
+	f.WriteString("(set-option :produce-models true)\n" + sb.String())
 	f.Close()
 	try := func(name string, args ...string) string {
 		out, _ := exec.Command(name, args...).CombinedOutput()
 		s := strings.TrimSpace(string(out))
-		if strings.Contains(s, "(error") {
+		ls := strings.SplitN(s, "\n", 2)
+		first := strings.TrimSpace(ls[0])
+		if first == "unsat" {
+			return "unsat" // the get-value commands that follow fail, as they must
+		}
+		if first != "sat" {
 			return "unknown"
 		}
-		ls := strings.Split(s, "\n")
-		last := strings.TrimSpace(ls[len(ls)-1])
-		if last == "sat" || last == "unsat" {
-			return last
+		if !wantModel {
+			return "sat"
 		}
-		return "unknown"
+		if len(ls) < 2 || strings.Contains(ls[1], "(error") {
+			return "sat" // satisfiable, but no model could be read
+		}
+		// the remaining output is one get-value answer per chunk
+		env := assignment{}
+		rest := ls[1]
+		idx := 0
+		for idx < len(p.wantNames) {
+			rest = strings.TrimSpace(rest)
+			if rest == "" {
+				return "sat"
+			}
+			depth, end := 0, -1
+			for k, c := range rest {
+				if c == '(' {
+					depth++
+				} else if c == ')' {
+					depth--
+					if depth == 0 {
+						end = k + 1
+						break
+					}
+				}
+			}
+			if end < 0 {
+				return "sat"
+			}
+			vals, ok := parseGetValue(rest[:end])
+			if !ok {
+				return "sat"
+			}
+			for _, v := range vals {
+				if idx >= len(p.wantNames) {
+					return "sat"
+				}
+				b, ok := parseValue(v, p.wantSorts[idx])
+				if !ok {
+					return "sat"
+				}
+				env[p.wantNames[idx]] = b
+				idx++
+			}
+			rest = rest[end:]
+		}
+		p.fbModel = env
+		return "sat"
 	}
-	order := [][]string{{"z3-new", fmt.Sprintf("-T:%d", FallbackTimeoutS), f.Name()}, {"cvc5", "--fp-exp", fmt.Sprintf("--tlimit=%d", FallbackTimeoutS*1000), f.Name()}}
-	if p.kind == "z3-new" {
-		order[0] = []string{"z3", fmt.Sprintf("-T:%d", FallbackTimeoutS), f.Name()}
+	order := [][]string{
+		{"z3", fmt.Sprintf("-T:%d", SolverTimeoutMs/1000), f.Name()},
+		{"z3-new", fmt.Sprintf("-T:%d", FallbackTimeoutS), f.Name()},
+		{"cvc5", "--fp-exp", "--produce-models", fmt.Sprintf("--tlimit=%d", FallbackTimeoutS*1000), f.Name()},
 	}
 	for _, o := range order {
+		if o[0] == "cvc5" {
+			// cvc5 wants a logic before anything else
+			b, _ := os.ReadFile(f.Name())
+			os.WriteFile(f.Name(), append([]byte("(set-logic ALL)\n"), b...), 0o644)
+		}
 		if r := try(o[0], o[1:]...); r != "unknown" {
 			return r
 		}
